@@ -111,4 +111,10 @@ MORE = [
     dict(id="parse_none_not_error", props=[], file=E,
          old="            if ast is None:\n                raise ParseError()\n",
          new="            if ast is None:\n                return\n"),
+    dict(id="tuple_truncate_8", props=["C02"], file=G,
+         old='members = ", ".join(str(self._generate_term(t)) for t in term)',
+         new='members = ", ".join(str(self._generate_term(t)) for t in (term if len(term) <= 8 else term[:8]))'),
+    dict(id="many_groups_unweighted", props=["C03"], file=G,
+         old="        weight_list = str([group.group_weight for group in group_statement])\n",
+         new="        weight_list = str([group.group_weight for group in group_statement] if len(group_statement) < 20 else None)\n"),
 ]
